@@ -622,7 +622,79 @@ type compiled struct {
 	err error
 }
 
+// runC02History: a resource belongs to its owner, who may change it between two evaluations; every evaluation yields the
+// elements the resource holds NOW.  The oracle is the same path on a deep copy made after the change (fresh objects that no
+// earlier evaluation has seen).
+func runC02History(c *Ctx) {
+	render := func(o Outcome) string {
+		if o.Panicked || o.TimedOut || o.Err != nil {
+			return canonOutcome(o, nil)
+		}
+		parts := []string{}
+		for _, it := range o.Coll {
+			if m, ok := it.(proto.Message); ok {
+				b, _ := proto.MarshalOptions{Deterministic: true}.Marshal(m)
+				parts = append(parts, fmt.Sprintf("%s:%x", m.ProtoReflect().Descriptor().Name(), b))
+			} else {
+				parts = append(parts, fmt.Sprintf("%T:%v", it, it))
+			}
+		}
+		return "[" + strings.Join(parts, " ") + "]"
+	}
+	eval := func(src string, r fhir.Resource) string {
+		return render(safeEval(func() (system.Collection, error) { return fhirpath.MustCompile(src).Evaluate([]fhir.Resource{r}) }))
+	}
+	pat := func(id, family string) *ppb.Patient {
+		return &ppb.Patient{Id: &dtpb.Id{Value: id}, Name: []*dtpb.HumanName{{Family: &dtpb.String{Value: family}, Given: []*dtpb.String{{Value: "G"}}}}}
+	}
+	paths := []string{"Patient.contained.id", "Patient.contained.name.family", "Patient.contained[0].name[0].family", "Patient.contained", "Patient.contained.name.given", "contained.id",
+		"Patient.contained.where(id = 'p2').name.family", "Patient.descendants().count()", "Patient.name.family", "Patient.id", "Patient.name.given", "Patient.active", "Patient.birthDate", "Patient.contained.count()"}
+	type change struct {
+		what string
+		do   func(r *ppb.Patient)
+	}
+	repack := func(a *anypb.Any, p *ppb.Patient) { _ = anypb.MarshalFrom(a, containedresource.Wrap(p), proto.MarshalOptions{}) }
+	changes := []change{
+		{"the packed contained resource is packed again into the same Any (same encoded length)", func(r *ppb.Patient) { repack(r.Contained[0], pat("p2", "Smyth")) }},
+		{"the packed contained resource is packed again into the same Any (another length)", func(r *ppb.Patient) { repack(r.Contained[0], pat("p22", "Smythe")) }},
+		{"the bytes of the Any are overwritten in place", func(r *ppb.Patient) {
+			n, _ := anypb.New(containedresource.Wrap(pat("p2", "Smyth")))
+			copy(r.Contained[0].Value, n.Value)
+		}},
+		{"the contained slot gets another Any", func(r *ppb.Patient) { r.Contained[0], _ = anypb.New(containedresource.Wrap(pat("p2", "Smyth"))) }},
+		{"a second contained resource is appended", func(r *ppb.Patient) {
+			a, _ := anypb.New(containedresource.Wrap(pat("p2", "Smyth")))
+			r.Contained = append(r.Contained, a)
+		}},
+		{"a string value is overwritten in place", func(r *ppb.Patient) { r.Name[0].Family.Value = "Other" }},
+		{"an element is replaced by another of the same content length", func(r *ppb.Patient) { r.Name[0] = &dtpb.HumanName{Family: &dtpb.String{Value: "Brown"}} }},
+		{"an element is set that was absent", func(r *ppb.Patient) { r.Active = &dtpb.Boolean{Value: true} }},
+		{"an element is removed", func(r *ppb.Patient) { r.Name = nil }},
+		{"the id is overwritten", func(r *ppb.Patient) { r.Id.Value = "q9" }},
+	}
+	for _, ch := range changes {
+		packed, _ := anypb.New(containedresource.Wrap(pat("p1", "Smith")))
+		r := &ppb.Patient{Id: &dtpb.Id{Value: "o1"}, Contained: []*anypb.Any{packed}, Name: []*dtpb.HumanName{{Family: &dtpb.String{Value: "White"}, Given: []*dtpb.String{{Value: "A"}, {Value: "B"}}}}}
+		for round := 0; round < 2; round++ { // evaluated twice before the change: a memo filled by the first evaluation is hit by the second
+			for _, src := range paths {
+				before := eval(src, r)
+				fresh := eval(src, proto.Clone(r).(*ppb.Patient))
+				c.Observe("history before "+ch.what+" "+src, true)
+				c.Law(before == fresh, "C02/history-dependent", "a path yields the elements the resource holds now, whatever was evaluated before", src+" (repeated evaluation, before any change)", before+" vs on a fresh copy "+fresh)
+			}
+		}
+		ch.do(r)
+		for _, src := range paths {
+			after := eval(src, r)
+			fresh := eval(src, proto.Clone(r).(*ppb.Patient))
+			c.Observe("history after "+ch.what+" "+src, after != "[]")
+			c.Law(after == fresh, "C02/history-dependent", "a path yields the elements the resource holds now, whatever was evaluated before", src+" after: "+ch.what, after+" vs on a fresh copy "+fresh)
+		}
+	}
+}
+
 func runC02(c *Ctx) {
+	runC02History(c)
 	c.meta.Rule = "layer A: every message of generated resources (all 146 R4 types; quick 1 per type, thorough 4) x {each element's JSON name (sampled), snake and capitalised forms, value, reference, valueUs/precision/timezone, names of other types, bogus names}, single messages and runs of 2-3 sibling messages, plus hand-built wrappers (empty ContainedResource, unset choice); layer B: every dotted path of the jsonformat rendering (capped per resource, sampled beyond) with and without root type name, random indexers at any step, foreign root type names, a bogus name appended; non-trivial = a step or path yielding at least one element; distinct by line / by (type, path)"
 	// ---- every member of Reference's oneof: a typed reference (with and without a version) reads
 	// back as Type/id[/_history/v]
